@@ -369,7 +369,7 @@ func H16_sigalg() {
 	if want != x509.UnknownSignatureAlgorithm {
 		vReach("C16.sa.pss-ok")
 	} else {
-		vReach("C16.sa.pss-refused C16.f.ok C16.f.trailing C16.f.undecodable C16.f.bad-name C16.f.bad-extension C16.f.unhandled-critical C16.f.key-usage C16.f.basic-constraints C16.f.padded-signature")
+		vReach("C16.sa.pss-refused")
 	}
 }
 
